@@ -423,6 +423,34 @@ pub fn run_a_no_refeed(f: &Factory, stream: &[In]) -> Result<Vec<Out>, (usize, S
 	Ok(outs)
 }
 
+/// an instance of the same SUT built from other parameters (another length) and another first value, used for a few
+/// ticks: the destination of a `clone_from`
+pub fn other_instance(case: &MCase, first: &In) -> Option<Box<dyn Sut>> {
+	let mut c2 = case.clone();
+	c2.stream.clear();
+	c2.alt.clear();
+	c2.params = match &case.params {
+		Params::Len(n) => Params::Len(if *n > 3 { n / 2 } else { n + 2 }),
+		Params::Ma(k, n) => Params::Ma(*k, if *n > 3 { n / 2 } else { n + 2 }),
+		Params::Two(a, b) => Params::Two(*b + 1, *a),
+		Params::Weights(w) => Params::Weights(w.iter().chain(w.iter()).take(w.len() + 1).copied().collect()),
+		Params::Usize(n) => Params::Usize(n + 1),
+		other => other.clone(),
+	};
+	if let Some(cfg) = c2.cfg.as_mut() {
+		let n = 2 + crate::cfgmut::max_period_in(cfg) % 5;
+		crate::cfgmut::shrink_periods(cfg, n);
+	}
+	let f = factory(&c2)?;
+	let Made::Ok(mut o) = construct(&f, first) else { return None };
+	for _ in 0..3 {
+		if guarded(|| o.next(first)).is_err() {
+			return None;
+		}
+	}
+	Some(o)
+}
+
 pub fn def_property(name: &str) -> &'static str {
 	match name {
 		"SMA" | "WMA" | "SWMA" | "TRIMA" | "HMA" | "LinReg" | "Conv" | "VWMA" | "Derivative" | "Momentum" | "RateOfChange"
@@ -868,7 +896,24 @@ pub fn run_b(info: &Factory, case: &MCase, a: &[Out], stats: &mut Stats) -> Vec<
 				events += 1;
 				stats.fault("fork");
 				cov(stats, "fork", if (pos as u64) <= n { "warmup" } else { "steady" });
-				let f = s.fork();
+				// every second fork is a `clone_from` into a used instance of the same type built from other parameters
+				let f = if events % 2 == 0 {
+					match other_instance(case, &stream[pos.min(stream.len() - 1)]) {
+						Some(o) => {
+							stats.fault("fork_by_clone_from");
+							match guarded(|| s.fork_into(o)) {
+								Ok(f) => f,
+								Err(m) => {
+									mismatch!("C09", "clone_not_independent", pos, "clone_from into a used instance of other parameters panicked: {m}");
+									continue;
+								}
+							}
+						}
+						None => s.fork(),
+					}
+				} else {
+					s.fork()
+				};
 				// witness: a fresh instance fed the same prefix
 				if let Made::Ok(mut w) = construct(info, &stream[0]) {
 					let mut ok = true;
